@@ -8,6 +8,10 @@ from ..core import rs
 from .base1 import Hist1Prop
 
 
+def strip_us(r):
+    return {k: v for k, v in r.items() if not k.startswith("_")} if isinstance(r, dict) else r
+
+
 def partition(rng, items):
     """random partition into batches, with empty batches sprinkled in"""
     out, cur = [], []
@@ -29,7 +33,10 @@ class C03(Hist1Prop):
     N_THOROUGH = 8000
     RULE = ("one data set entered three ways into the same rising bins (regular / irregular / gapped / fixed-width objects): "
             "h1() at once, fill() one value at a time in a random permutation (each preceded by find_bin on the same value), "
-            "fill_n() over a random partition with empty batches and NaNs; weights absent / int / dyadic; keep_missed on/off. "
+            "fill_n() over a random partition with empty batches and NaNs; weights absent / int / dyadic; keep_missed on/off; in "
+            "half of the cases also a histogram constructed from a first chunk (also an empty one) and completed by fill / fill_n; "
+            "in a third of the gap-free cases an in-place merge_bins (axis given or not) in the middle of both incremental paths, "
+            "compared with the merged construction. "
             "non-trivial = some value inside a bin and some outside or on an edge; distinct = hash of the op list")
     FIELDS = {"bins", "freq", "err2", "under", "over", "total", "keep"}
 
@@ -62,6 +69,14 @@ class C03(Hist1Prop):
         src = {"binning": b, "vals": gen1.enc_vals(vals), "ws": None if ws is None else [rs(w) for w in ws],
                "wk": wk, "keep": keep, "order": order, "batches": partition(rng, order2),
                "containers": [rng.choice([None, "list"]) for _ in range(3 * n + 4)]}
+        # a histogram that starts as the construction from a first chunk (of any size, also empty) and receives the rest by
+        # fill / fill_n: "started empty or pre-filled" entry paths must agree as well
+        if rng.random() < 0.5:
+            src["pre"] = rng.choice([0, 0, 1, n // 2, n])
+        # an in-place merge_bins in the middle of the two incremental paths (bins change under the same object): the later
+        # fill / find_bin / fill_n calls must use the bins as they are now; compared with the merged construction
+        if "gapped" not in tags and "tiny_gap" not in tags and len(pairs) >= 2 and rng.random() < 0.3:
+            src["merge"] = {"amount": rng.choice([2, 2, 3]), "at": rng.randint(0, n), "axis_none": rng.random() < 0.6}
         return self.build(src, tags)
 
     @staticmethod
@@ -69,18 +84,44 @@ class C03(Hist1Prop):
         b, vals, ws, wk, keep = src["binning"], src["vals"], src["ws"], src["wk"], src["keep"]
         ops = [{"op": "construct", "out": 0, "binning": b, "data": vals, "weights": ws, "wkind": wk, "keep": keep}]
         ops.append({"op": "empty", "out": 1, "binning": b, "keep": keep})
-        for i in src["order"]:
+        mg = src.get("merge")
+        mop = None if mg is None else {"op": "merge", "amount": mg["amount"], "inplace": True, "axis0": not mg.get("axis_none", False)}
+        for pos, i in enumerate(src["order"]):
+            if mop is not None and pos == mg["at"]:
+                ops.append(dict(mop, h=1))
             v = vals[i]
             if v is not None:
                 ops.append({"op": "find_bin", "h": 1, "v": v})
             w = "1" if ws is None else ws[i]
             wkk = "pyint" if (ws is None or wk == "int64") else "pyfloat"
             ops.append({"op": "fill", "h": 1, "v": v, "w": w, "wk": wkk, "default_w": ws is None})
+        if mop is not None and mg["at"] >= len(src["order"]):
+            ops.append(dict(mop, h=1))
         ops.append({"op": "empty", "out": 2, "binning": b, "keep": keep})
+        nb = len(src["batches"])
         for j, batch in enumerate(src["batches"]):
+            if mop is not None and j == min(mg["at"], nb - 1):
+                ops.append(dict(mop, h=2))
             ops.append({"op": "fill_n", "h": 2, "vs": [vals[i] for i in batch],
                         "ws": None if ws is None else [ws[i] for i in batch], "wkind": wk,
                         "container": src["containers"][j % len(src["containers"])]})
+        tags = list(tags)
+        if "pre" in src:
+            p = src["pre"]
+            sub = lambda idx: ([vals[i] for i in idx], None if ws is None else [ws[i] for i in idx])
+            v, w = sub(range(p))
+            tags.append(f"prefilled:{'empty' if p == 0 else 'some'}")
+            for reg in (3, 4):
+                ops.append({"op": "construct", "out": reg, "binning": b, "data": v, "weights": w, "wkind": wk, "keep": keep})
+            for i in range(p, len(vals)):
+                wi = "1" if ws is None else ws[i]
+                ops.append({"op": "fill", "h": 3, "v": vals[i], "w": wi,
+                            "wk": "pyint" if (ws is None or wk == "int64") else "pyfloat", "default_w": ws is None})
+            v, w = sub(range(p, len(vals)))
+            ops.append({"op": "fill_n", "h": 4, "vs": v, "ws": w, "wkind": wk})
+        if mop is not None:
+            tags.append("merge_in_history")
+            ops.append({"op": "merge", "h": 0, "amount": mg["amount"], "out": 5, "axis0": not mg.get("axis_none", False)})
         return {"kind": "hist1", "ops": ops, "tags": tags, "src": src}
 
     def shrink_candidates(self, case):
@@ -114,7 +155,16 @@ class C03(Hist1Prop):
         final = outs[-1]["regs"]
         a, b, c = final[0], final[1], final[2]
         gapped = "gapped" in case.get("tags", [])
-        for name, x in (("fill", b), ("fill_n", c)):
+        paths = [("fill", b, a), ("fill_n", c, a)]
+        if case["src"].get("merge") is not None:
+            m = final[5]       # the construction, merged: what the two incremental paths with a merge in the middle must give
+            paths = [("fill (in-place merge_bins in between)", b, m), ("fill_n (in-place merge_bins in between)", c, m)]
+            for name, x, ref in paths:
+                if x["bins"] != ref["bins"]:
+                    fails.append(f"paths_bins: {name} path has bins {x['bins']}, the merged construction {ref['bins']}")
+        if "pre" in case["src"]:
+            paths += [("construction from a first chunk + fill", final[3], a), ("construction from a first chunk + fill_n", final[4], a)]
+        for name, x, a in paths:
             for f in ("freq", "err2"):
                 if [Fraction(v) for v in x[f]] != [Fraction(v) for v in a[f]]:
                     fails.append(f"paths_{f}: {name} path gives {x[f]}, construction gives {a[f]}")
@@ -127,7 +177,7 @@ class C03(Hist1Prop):
         keep = ops[0].get("keep", True)
         for k, op in enumerate(ops):
             if op["op"] == "find_bin":
-                if outs[k]["regs"][1] != outs[k - 1]["regs"][1]:
+                if strip_us(outs[k]["regs"][1]) != strip_us(outs[k - 1]["regs"][1]):
                     fails.append("find_bin_mutates: find_bin changed the histogram")
                 if outs[k + 1]["ret"] != outs[k]["ret"]:
                     fails.append(f"fill_ret: fill returned {outs[k+1]['ret']} but find_bin said {outs[k]['ret']} for {op['v']}")
